@@ -16,11 +16,15 @@ F = Fraction
 
 # --------------------------------------------------------------------------- known findings (replays)
 
+LAST_HTML = [None]       # the document of the last finding replay (py/tools-free way to write corpus/C12)
+
+
 def _flex_rects(cont_css, items_css):
     """Render a flex container of empty items (container `width:100px` unless overridden)."""
     html = ('<style>@page{size:2000px;margin:0}html,body{margin:0}</style>'
             f'<div id="c" style="display:flex;width:100px;{cont_css}">' +
             ''.join(f'<div id="i{i}" style="{css}"></div>' for i, css in enumerate(items_css)) + '</div>')
+    LAST_HTML[0] = html
     _, rects = fx.extract(docs.render(html))
     return rects
 
@@ -29,6 +33,7 @@ def _grid_rects(cont_css, items_css):
     html = ('<style>@page{size:2000px;margin:0}html,body{margin:0}</style>'
             f'<div id="c" style="display:grid;width:100px;{cont_css}">' +
             ''.join(f'<div id="i{i}" style="{css}"></div>' for i, css in enumerate(items_css)) + '</div>')
+    LAST_HTML[0] = html
     with gx.wall_clock(5):
         _, rects = fx.extract(docs.render(html))
     return rects
@@ -121,6 +126,17 @@ def replay_grid_maximize():
     return r[0][3] != 50
 
 
+def replay_grid_named_nth():
+    r = _grid_rects('grid-template-columns:[foo] 10px [foo] 20px [foo] 30px;justify-content:start',
+                    ['grid-column:2 foo;height:5px'])
+    return r[0][1] != 10
+
+
+def replay_grid_justify_self_outer():
+    r = _grid_rects('', ['justify-self:start;width:20px;padding:0 5px;height:5px'])
+    return r[0][3] != 30
+
+
 def replay_grid_column_flow_implicit_start():
     try:
         _grid_rects('grid-auto-flow:column', ['grid-row-end:1;height:5px', 'height:5px'])
@@ -150,12 +166,68 @@ FINDINGS = {
     'grid-named-span-hang': replay_grid_named_span_hang,
     'grid-negative-line-numbers': replay_grid_negative_line,
     'grid-maximize-no-redistribution': replay_grid_maximize,
+    'grid-named-line-nth-ignored': replay_grid_named_nth,
+    'grid-justify-self-outer-width': replay_grid_justify_self_outer,
     'grid-column-flow-implicit-start': replay_grid_column_flow_implicit_start,
     'grid-leading-implicit-tracks-misindexed': replay_grid_leading_implicit_tracks,
 }
 
 
 # --------------------------------------------------------------------------- helpers
+
+def model_tags(command, lines):
+    """Branch tags of the model for each protocol line (`flex …` -> `flextags …`, `grid …` -> `gridtags …`)."""
+    from vlib import lean
+    if not lines:
+        return []
+    outs = lean.run_driver(PROP.driver, [command + line[line.index(' '):] for line in lines])
+    return [o.split() if o != 'bad-op' else ['tags:bad-op'] for o in outs]
+
+
+# every branch tag the models can emit (lean/WpModel/Drive/C12Tags.lean); the evidence lists those never hit
+FLEX_BRANCHES = [
+    'dir:row', 'dir:row-reverse', 'dir:column', 'dir:column-reverse', 'wrap:nowrap', 'wrap:wrap', 'wrap:wrap-reverse',
+    '5:lines=0', '5:lines=1', '5:lines=2', '5:lines=3', '5:lines=3+', '3:content-basis', '3:definite-basis',
+    '4:column-auto-height', '4:definite-main', '5:single-overflowing-item',
+    '9.7.1:grow', '9.7.1:shrink', '9.7.3:some-frozen', '9.7.3:none-frozen',
+    '9.7.5b:factor-sum<1', '9.7.5b:factor-sum>=1', '9.7.5b:magnitude-replaced', '9.7.5b:magnitude-kept',
+    '9.7.5c:remaining=0', '9.7.5c:grow', '9.7.5c:shrink', '9.7.5c:shrink-sum=0', '9.7.5c:zero-division',
+    '9.7.5c:min_max-clamps', '9.7.5c:no-clamp', '9.7.5d:min-violation', '9.7.5d:no-violation',
+    '9.7:passes=0', '9.7:passes=1', '9.7:passes=2', '9.7:passes=3', '9.7:passes=3+',
+    '8:single-line-definite-cross', '8:cross-from-items', '9:stretch-lines', '9:no-extra', '9:indefinite-cross',
+    '9:not-stretch', '11:stretched-item', '11:no-stretch',
+    '12:auto-margins', '12:auto-margins-negative', '12:free<0', '12:free=0', '12:free>0', '12:stretch-quirk',
+    '12:justify', '13:auto-cross-margins', '13:auto-cross-margins-no-room', '14:end', '14:center', '14:stretch',
+    '14:start', '16:no-extra', '16:shift', '16:space-between', '16:start', '16:single-line',
+    'final:min/max-reclamp', 'final:as-computed', 'result:ok', 'result:error']
+GRID_BRANCHES = [
+    'flow:row', 'flow:row-dense', 'flow:column', 'flow:column-dense', 'areas:yes', 'areas:none',
+    'template-columns:none', 'template-columns:list', 'template-rows:none', 'template-rows:list', 'template:repeat',
+    'height:auto', 'height:definite',
+    '1.1:both-axes-given', '1.2:locked-dense', '1.2:locked-sparse', '1.4:second-given-dense',
+    '1.4:second-given-sparse', '1.4:free-dense', '1.4:free-sparse',
+    'place:auto', 'place:span', 'place:span-name', 'place:line', 'place:negative', 'place:nth-name', 'place:name',
+    '1.3:implicit-tracks-before', '1.3:no-track-before', '1.3:implicit-tracks-after', '1.3:explicit-grid-only',
+    '4:negative-row-dropped', '4:all-rows-laid-out', '4:negative-column-index', '4:columns>=0', '4:spanning-area',
+    '4:single-cells', '4:auto-inline-margin',
+    'err:UnboundLocalError@grid_layout.first_i', 'err:NonTermination@_get_second_placement.sparse',
+    'err:NonTermination@_get_second_placement.dense', 'err:NonTermination@grid_layout.while',
+    'err:NonTermination@grid_layout.sparse.count', 'err:NonTermination@grid_layout.dense.count',
+    'cols:err:IndexError@tracks_children', 'cols:err:IndexError@tracks_children_(spanning)',
+    'rows:err:IndexError@tracks_children_(spanning)', 'err:IndexError@tracks_children',
+    'err:IndexError@tracks_children_(spanning)',
+    'err:IndexError@columns_positions[x]', 'result:ok', 'result:error'] + [
+    f'{axis}:{t}' for axis in ('cols', 'rows') for t in (
+        '1.3:maximize', '1.3:no-free-space', 'track:px', 'track:%', 'track:fr', 'track:auto',
+        'track:min-content', 'track:max-content', 'track:minmax', '1.2.2:non-spanning-items', '1.2.3:spanning-items',
+        '1.4:no-free-space', '1.4:all-flexible', '1.4:inflexible-track', '1.4:factor-sum<1',
+        '1.4:factor-sum>=1', '1.4:one-pass', '1.4:several-passes', '1.5:stretch-auto-tracks', '1.5:nothing',
+        )] + ['rows:1.3:indefinite', 'rows:1.4:indefinite', 'rows:1.5:indefinite'] + [
+    f'3.5:{p}:{v}' for p in ('justify-content', 'align-content') for v in (
+        'center', 'end', 'space-around', 'space-between', 'space-evenly', 'normal', 'stretch', 'start')] + [
+    f'4:justify-self:{v}' for v in ('stretch', 'stretch-fixed-width', 'center', 'end', 'right', 'start')] + [
+    f'4:align-self:{v}' for v in ('stretch', 'stretch-fixed-height', 'center', 'end', 'start')]
+
 
 def flex_tags(case, out):
     tags = [case['dir'], case['wrap'], f'justify:{case["justify"]}', f'n{len(case["items"])}']
@@ -227,7 +299,7 @@ def doc_from_meta(meta):
 class C12(PropCheck):
     id = 'C12'
     extractors = (c12_tables.generate,)
-    modules = ('WpModel.Props.C12', 'WpModel.Witness.C12')
+    modules = ('WpModel.Props.C12', 'WpModel.Props.C12Tracks', 'WpModel.Props.C12Grid2', 'WpModel.Witness.C12')
     trusted_base = (
         'modelled, not verified: flex_layout (steps 3-16 for empty block items) as Wp.Flex.layout; grid.py '
         '_intersect/_get_line/_get_placement/_get_span/_get_second_placement/_get_template_tracks/'
@@ -235,7 +307,7 @@ class C12(PropCheck):
         'alignment, item boxes for empty block items) as Wp.Grid.*',
         'the harness replaces itertools.count inside weasyprint.layout.grid by a counter bounded at 200 values '
         '(same bound in the model) and reads areas / track sizes through a pass-through wrapper of '
-        '_resolve_tracks_sizes; a 20 s wall clock stands for the unbounded `while True` loops',
+        '_resolve_tracks_sizes; a CPU-time limit (ITIMER_PROF) stands for the unbounded `while True` loops',
         'float layout results are compared exactly when dyadic, within 1e-9 otherwise (counted as float_rounding)',
     )
     assumptions = (
@@ -255,21 +327,21 @@ class C12(PropCheck):
             'rendered flex containers of 1..8 empty items (row/column, reverse, wrap, gaps, every justify-content / '
             'align-items / align-content, flex-basis/grow/shrink/order/margins/min/max/padding/border): border boxes '
             'of the laid-out children and container height; non-trivial = at least two items or a flexing item')
-        for _ in range(run.n(2500, 24000)):
-            case = fx.gen_case(rng)
+        cases = [fx.gen_case(rng) for _ in range(run.n(2500, 24000))]
+        for case, mtags in zip(cases, model_tags('flextags', [fx.wire(c) for c in cases])):
             out = fx.impl_out(case)
             sec.add(fx.wire(case), out, meta={'kind': 'flex', 'case': case},
                     nontrivial=len(case['items']) >= 2 or any(it['grow'] for it in case['items']),
-                    tags=flex_tags(case, out))
+                    tags=mtags + [f'n{len(case["items"])}', f'justify:{case["justify"]}'])
         sec_adv = tolerant_section(
             run, 'flex-doc-adversarial',
             'same, with zero / negative / huge factors, sizes and margins, min > max, empty containers; '
             'non-trivial = the implementation returned a layout')
-        for _ in range(run.n(400, 5000)):
-            case = fx.gen_case(rng, adversarial=True)
+        cases = [fx.gen_case(rng, adversarial=True) for _ in range(run.n(400, 5000))]
+        for case, mtags in zip(cases, model_tags('flextags', [fx.wire(c) for c in cases])):
             out = fx.impl_out(case)
             sec_adv.add(fx.wire(case), out, meta={'kind': 'flex', 'case': case}, nontrivial=out.startswith('ok'),
-                        tags=[out.split()[0]])
+                        tags=mtags + [out.split()[0]])
 
         import math
         sec_m = run.section('flex-magnitude', 'int(log10(x)) of the 9.7.5.b magnitude test (Python floats) against the '
@@ -371,15 +443,35 @@ class C12(PropCheck):
             'flow, gaps, every justify-content / align-content, items placed by numbers, spans, names, areas or '
             'automatically, justify-self / align-self): areas chosen by the placement algorithm, track sizes, border '
             'boxes of the laid-out children, container height; non-trivial = some item is auto-placed')
-        seconds = 4 if not run.thorough else 10
-        for _ in range(run.n(700, 8000)):
-            doc = gx.gen_doc(rng)
+        seconds = 3 if not run.thorough else 10
+        gdocs = [gx.gen_doc(rng) for _ in range(run.n(700, 8000))]
+        for doc, mtags in zip(gdocs, model_tags('gridtags', [gx.wire_doc(d) for d in gdocs])):
             out = gx.impl_doc(doc, seconds)
             auto = any(it['rs'] == 'auto' or it['cs'] == 'auto' for it in doc['items'])
             sec_g.add(gx.wire_doc(doc), out, meta={'kind': 'grid', 'doc': doc}, nontrivial=auto,
-                      tags=[doc['flow'] + ('-dense' if doc['dense'] else ''), out.split()[0] if out.startswith('err')
-                            else 'ok', f'n{len(doc["items"])}'])
-        for s in (sec, sec_adv, sec_r, sec_g):
+                      tags=mtags + [f'n{len(doc["items"])}'])
+        # the same computed values written with the shorthands (`flex`, `flex-flow`, `gap`, `grid-row`, `grid-column`)
+        sec_sh = tolerant_section(
+            run, 'shorthand-doc',
+            'flex and grid documents written with the shorthands flex / flex-flow / gap / grid-row / grid-column '
+            'against the models fed with the longhand values; non-trivial = always')
+        for _ in range(run.n(250, 3000)):
+            case = fx.gen_case(rng)
+            sec_sh.add(fx.wire(case), fx.impl_out(case, shorthand=True),
+                       meta={'kind': 'flex', 'case': case, 'shorthand': True}, tags=['flex'])
+        for _ in range(run.n(120, 1500)):
+            doc = gx.gen_doc(rng)
+            sec_sh.add(gx.wire_doc(doc), gx.impl_doc(doc, seconds, shorthand=True),
+                       meta={'kind': 'grid', 'doc': doc, 'shorthand': True}, tags=['grid'])
+        # branches of the models that no case of this run went through
+        hit = set(sec.tags) | set(sec_adv.tags) | set(sec_g.tags)
+        known = set(FLEX_BRANCHES + GRID_BRANCHES)
+        run.extra['model_branches'] = {
+            'flex': len(FLEX_BRANCHES), 'grid': len(GRID_BRANCHES),
+            'never_hit': [b for b in FLEX_BRANCHES + GRID_BRANCHES if b not in hit],
+            'unlisted': sorted(t for t in hit if ':' in t and t not in known and not t.startswith(('justify:',))),
+            'histogram': {s.name: dict(s.tags) for s in (sec, sec_adv, sec_g)}}
+        for s in (sec, sec_adv, sec_r, sec_g, sec_sh):
             s.flush()
             rounding[s.name] = s.float_rounding
         run.extra['float_rounding'] = rounding
@@ -604,6 +696,19 @@ def tracks_violation(case, out):
     bounded = bounded_tracks_violation(case, out)
     if bounded:
         return bounded
+    fns = case['fns']
+    if (case['stretch'] in ('normal', 'stretch') and any(f == ('auto', 'auto') for f in fns) and
+            all(f == ('auto', 'auto') or (f[0] == f[1] and not isinstance(f[0], str) and f[0][0] == 'px') for f in fns)):
+        free = F(case['box']) - sum(F(f[0][1]) for f in fns if f != ('auto', 'auto')) - F(case['gap']) * (len(fns) - 1)
+        if free > 0:
+            share = free / sum(1 for f in fns if f == ('auto', 'auto'))
+            got = [F(t[0]) for t in sx.loads_line(out)[0]]
+            for k, f in enumerate(fns):
+                want = share if f == ('auto', 'auto') else F(f[0][1])
+                if got[k] != want:
+                    return (f'tracks {fns} in {case["box"]} with gap {case["gap"]} ({case["stretch"]}): track {k} is '
+                            f'{got[k]}, expected {want} (auto tracks share the free space equally)')
+        return None
     fixed, frs = F(0), []
     for k, (mn, mx) in enumerate(case['fns']):
         if mn != mx and not (mn == 'auto' and not isinstance(mx, str) and mx[0] == 'fr'):
@@ -687,18 +792,43 @@ def tracks_doc_violation(doc, out):
              ('height', 'mt', 'mb', 'pt', 'pb', 'bt', 'bb')))
     for key, what, template, box, gap, content, keys in axes:
         sizes = found.get(key)
-        if sizes is None or template is None or box is None:
+        if sizes is None:
             continue
-        if any(any(it[k] for k in keys) for it in doc['items']):
-            continue                     # an item's contribution may make an fr track inflexible
         tracks = []
-        for e in template:
+        for e in template or []:
             if e[0] == 'size':
                 tracks.append(e[1])
             elif e[0] == 'repeat':
                 tracks.extend([x[1] for x in e[2] if x[0] == 'size'] * e[1])
+        auto = doc['auto_cols'] if key == 'cols' else doc['auto_rows']
+        positions_ok = 'pos=' in toks and all(int(p[1]) >= 0 and int(p[2]) >= 0 for p in toks[toks.index('pos=') + 1])
+        if (len(sizes) > len(tracks) and positions_ok and doc['areas'] is None and
+                all(not isinstance(t, str) and t[0] == 'px' for t in auto)):
+            # implicit tracks after the explicit grid take the grid-auto-rows / -columns sizes in turn
+            for k in range(len(tracks), len(sizes)):
+                want = F(auto[(k - len(tracks)) % len(auto)][1])
+                if sizes[k] != want:
+                    return (f'{what}: implicit track {k} is {float(sizes[k])}, grid-auto-{what} '
+                            f'{[gx.css_track(t) for t in auto]} gives {float(want)}')
+        if template is None or box is None:
+            continue
+        if any(any(it[k] for k in keys) for it in doc['items']):
+            continue                     # an item's contribution may make an fr track inflexible
         if len(tracks) != len(sizes) or not tracks:
             continue                     # implicit tracks were added
+        if (all(t == 'auto' or (not isinstance(t, str) and t[0] == 'px') for t in tracks) and 'auto' in tracks
+                and content in ('normal', 'stretch')):
+            # 1.5: the free space is shared equally by the auto tracks
+            free = F(box) - sum(F(t[1]) for t in tracks if t != 'auto') - F(gap) * (len(tracks) - 1)
+            if free > 0:
+                share = free / sum(1 for t in tracks if t == 'auto')
+                for t, size in zip(tracks, sizes):
+                    want = share if t == 'auto' else F(t[1])
+                    if abs(size - want) > F(1, 10**6):
+                        return (f'{what} {[gx.css_track(t) for t in tracks]} in {box}px with gap {gap} '
+                                f'({content}): sizes {[float(c) for c in sizes]}, expected {float(want)} for '
+                                f'{gx.css_track(t)} (auto tracks share the free space equally)')
+            continue
         if any(isinstance(t, str) or t[0] not in ('px', 'fr') for t in tracks):
             continue
         frs = sum(F(t[1]) for t in tracks if t[0] == 'fr')
@@ -720,25 +850,46 @@ def tracks_doc_violation(doc, out):
     return None
 
 
+def write_corpus():
+    """corpus/C12/<finding id>.json: the minimal document of every listed finding (run by hand)."""
+    import json
+    from vlib import findings
+    from vlib.paths import CORPUS
+    (CORPUS / 'C12').mkdir(parents=True, exist_ok=True)
+    what = {f['id']: f['what'] for f in findings.for_property('C12')}
+    for ident, replay in FINDINGS.items():
+        LAST_HTML[0] = None
+        try:
+            still = bool(replay())
+        except Exception as exc:  # noqa: BLE001
+            still = f'{type(exc).__name__}'
+        (CORPUS / 'C12' / f'{ident}.json').write_text(json.dumps(
+            {'id': ident, 'html': LAST_HTML[0], 'what': what.get(ident), 'fails_on_pinned_tree': still}, indent=1))
+
+
 PROP = C12()
 
 MANIFEST = {
     'design_ref': 'DESIGN.md §4 C12',
     'technique': 'Lean 4 theorems over hand-written executable models of flex_layout and of the grid placement / track '
                  'sizing functions; exact executable correspondence with the real code (rendered documents for flex '
-                 'and grid_layout, direct calls for the private grid functions)',
-    'text': 'Proved for all inputs on the models: order-modified document order is a stable sort; step-5 lines partition '
-            'the items, fit the main size and are maximal; the 9.7 loop freezes an item per pass and terminates; a line '
-            'whose items are not clamped and whose factors sum to >= 1 is filled exactly with proportional shares; '
-            'justify-content spacing, auto margins, align-self / stretch; _intersect is half-open interval overlap; '
-            'numeric line placement (positive numbers); auto-placed grid items (step 1.4, dense step 1.2) overlap nothing '
-            'placed before; px and fr tracks with the gaps partition the container. Keyword sets of the alignment '
-            'branches and the graphs of _intersect / _get_placement / _get_span are regenerated from the source each run '
-            'and tied to the models by decide.',
+                 'and grid_layout, direct calls for the private grid functions); model branch tags per case',
+    'text': 'Proved for all inputs on the models: order-modified document order is a stable sort and survives the whole '
+            'layout (lines, wrap-reverse, *-reverse); step-5 lines partition the items, fit the main size and are '
+            'maximal; the 9.7 loop freezes an item per pass and terminates; whatever the number of passes, a line whose '
+            'last pass is not clamped (factor sum >= 1) is filled exactly with proportional shares; justify-content '
+            'spacing, auto margins, align-self / stretch, align-content stretch; _intersect is half-open interval '
+            'overlap; numeric line placement (positive numbers), named lines and template areas (first occurrence); '
+            'auto-placed grid items (step 1.4, dense step 1.2) overlap nothing placed before; px / % / minmax / fr tracks: '
+            '1.3 conserves space and keeps tracks within bounds, tracks and gaps partition the container; an item is '
+            'inside its area (stretch: margin box = area; start / center / end). Keyword sets of the alignment branches '
+            'and the graphs of _intersect / _get_placement / _get_span are regenerated from the source each run.',
     'note': 'Trusted: Lean kernel, the AST/graph translator, the correspondence harness (sampled, empty block items, '
-            'definite container width). Fifteen known findings (clamp inside 9.7.5.c, paddings not counted, auto margins, '
-            'fractional factor sums, negative grid lines, tracks before the explicit grid, crashes / hangs of the '
-            'placement loops, column gaps ignored by justify-content) are witnessed in Witness/C12.lean and replayed each '
-            'run; the corresponding theorems carry explicit hypotheses (_partial). Intrinsic sizing, baselines, auto-fit/auto-fill, '
-            'subgrid and spanning items over content-sized tracks are not modelled.',
+            'definite container width). Nineteen known findings (clamp inside 9.7.5.c, paddings not counted, auto '
+            'margins, fractional factor sums, content base size clamped, negative grid lines, n-th named line, tracks '
+            'before the explicit grid, crashes / hangs of the placement loops, column gaps ignored by justify-content, '
+            'single-pass maximize, outer width for justify-self) are witnessed in Witness/C12.lean and replayed each run '
+            '(corpus/C12); the corresponding theorems carry explicit hypotheses. Repair patches: repairs/C12/*.diff. '
+            'Intrinsic sizing, baselines, auto-fit/auto-fill, subgrid and spanning items over content-sized tracks are '
+            'not modelled.',
 }
